@@ -457,6 +457,21 @@ fn forced_small() -> &'static Small {
     })
 }
 
+fn split_boundaries() -> &'static Vec<(usize, usize, u8)> {
+    static S: OnceLock<Vec<(usize, usize, u8)>> = OnceLock::new();
+    S.get_or_init(|| {
+        let mut v = vec![];
+        for n in 1..=64usize {
+            for k in 1..=n {
+                for which in 0..3u8 {
+                    v.push((n, k, which));
+                }
+            }
+        }
+        v
+    })
+}
+
 fn noshuffle_pairs() -> &'static Vec<(usize, usize)> {
     static S: OnceLock<Vec<(usize, usize)>> = OnceLock::new();
     S.get_or_init(|| {
@@ -889,6 +904,8 @@ impl Property for C16 {
                     note: "shuffle off: every 2<=k<=n<=64 x {KFold, cross_val_predict, cross_validate}; no draw is made (schedule-free)" },
             Batch { name: "split-noshuffle", count: 64 * TEST_SIZES.len() as u64 * 2, simulated: false, exhaustive: true,
                     note: "train_test_split, shuffle off: n 1..64 x 16 test sizes x {f64,f32} (schedule-free)" },
+            Batch { name: "split-boundary", count: split_boundaries().len() as u64 * 2, simulated: true, exhaustive: true,
+                    note: "train_test_split with test_size = fl(k/n) and its two f32 neighbours for every 1<=k<=n<=64 (both sides of every boundary of floor(n*test_size)), f32 and f64 matrices, shuffled and not" },
             Batch { name: "split-large", count: if q { 300 } else { 6_000 }, simulated: true, exhaustive: false,
                     note: "train_test_split on 1000..20000 rows (the property bounds n only for k-fold), shuffled and unshuffled" },
             Batch { name: "forced-perm-exhaustive", count: forced_small().cases.len() as u64, simulated: true, exhaustive: true,
@@ -928,6 +945,23 @@ impl Property for C16 {
                 Case { op: Op::Split { test_size: ts, f32m }, n, k: 2, p: 1 + (index % 4) as usize, shuffle: false, fail_at: None, tape: TapeSpec::prng(tape_seed), kind: "noshuffle".into(), f32m: false, custom_folds: None, ctor: 0 }
             }
             "forced-perm-exhaustive" => forced_small().cases[index as usize].clone(),
+            "split-boundary" => {
+                // test sizes on both sides of every boundary of floor(n * test_size): fl(k/n) and its two f32 neighbours,
+                // and the largest f32 below 1
+                let (n, k, which) = split_boundaries()[(index / 2) as usize];
+                let base = k as f32 / n as f32;
+                let ts = match which {
+                    0 => base,
+                    1 => f32::from_bits(base.to_bits() - 1),
+                    _ => f32::from_bits(base.to_bits() + 1),
+                };
+                let ts = if ts > 1.0 { 1.0 } else { ts };
+                let mut n2 = n;
+                while ((n2 as f32) * ts) as usize == 0 {
+                    n2 += 1; // precondition of the property: floor(n * test_size) >= 1
+                }
+                Case { op: Op::Split { test_size: ts, f32m: index % 2 == 1 }, n: n2, k: 2, p: 1 + (index % 3) as usize, shuffle: index % 4 < 2, fail_at: None, tape: TapeSpec::prng(tape_seed), kind: "prng".into(), f32m: false, custom_folds: None, ctor: 0 }
+            }
             "split-large" => {
                 // train_test_split has no upper bound on n in the property: a few thousand rows, shuffled and not
                 let n = r.usize_in(1000, 20000);
